@@ -342,6 +342,11 @@ def c05(chk):
         spec_stage(chk, nm, "Reopen.tla", consts, view="View", emit="Emit", invariants=("XLastWriteWins",),
                    properties=(), exe="procs", keep=has("close", "newproc"), sample=smp, chunk=40)
     l0_traces(chk, "reopen_traces", 12 if quick else 120, 300, 5, 3, "set,del,begin,commit,rollback,gc,reopen")
+    # hundreds of keys (more version records than any read-ahead window of the store) across reopenings: the read matrix is
+    # taken after every reopen and at the end only
+    specs = [dict(seed=vlib.seed() * 577 + i, steps=700 if quick else 1500, keys=350, maxtx=1, ops="set,del,reopen,gc", levels="RC", mode="inline",
+                  obs="false", obsevery=10000, reopenafter=500 if quick else 900) for i in range(2 if quick else 8)]
+    trace_stage(chk, "many_keys_reopen", "L0Trace.tla", dict(Keys=keyset(350), AllowedDev=set(allowed_dev())), specs)
     def restart_chain(b):
         ops = [x["op"] for x in b]
         if "newproc" not in ops:
@@ -355,6 +360,17 @@ def c05(chk):
     chk.assumptions += ["processes end with all instances closed cleanly (kills are C04's quantifier)"]
 
 
+def c18_collect(chk):
+    """The collect rule at the level of the use case: after every collection of the bounded model the real roots hold
+    exactly one content file per version the rule keeps (FsDb.tla GC / NCollect)."""
+    quick = chk.tier == "quick"
+    gc = has("gc")
+    l1_stage(chk, "collect_exact_1key", dict(Keys=K1, MaxTx=2, MaxSteps=6 if quick else 8, Levels={"RC", "RR"}, Ops={"set", "del", "begin", "gc", "commit"}),
+             keep=gc, sample=3000 if quick else 40000)
+    l1_stage(chk, "collect_exact_2keys", dict(Keys=K2, MaxTx=1, MaxSteps=6 if quick else 7, Levels={"RR"}, Ops={"set", "begin", "gc", "rollback"}),
+             keep=gc, sample=2000 if quick else 30000)
+
+
 VL_INV = ("XMirrorInSync", "XSearchCorrect", "XCollectCorrect", "XSorted")
 
 
@@ -366,7 +382,9 @@ def c18(chk):
     long_ = dict(common, invariants=("XMirrorInSync", "XSorted"))   # the search/collect theorems are checked on the small domains
     spec_stage(chk, "long_sim", "VersionList.tla", dict(N=400 if quick else 3000, MaxSteps=300 if quick else 2500, Mode="machine"), emit="EmitFinal",
                simulate=8 if quick else 40, depth=300 if quick else 2500, **long_)
-    chk.assumptions += ["the collector's use of IterateBeforeSeq (yield, then PopFront) is driven as usecase/core/delete_old.go drives it"]
+    c18_collect(chk)
+    chk.assumptions += ["the collector's use of IterateBeforeSeq (yield, then PopFront) is driven as usecase/core/delete_old.go drives it",
+                        "at the level of the use case the collected versions are counted by the content files left on disk once the cleaner has drained"]
 
 
 def c19(chk):
@@ -377,6 +395,19 @@ def c19(chk):
     spec_stage(chk, "byte_strings", "Record.tla", dict(Mode="bytes", MaxLen=42), emit="Emit", invariants=(),
                simulate=60 if quick else 1500, depth=43, **common)
     fixture_stage(chk)
+    # through the real store: the records of 1..1000 keys as persisted, after Close and Open
+    exe = vlib.build("fixture")
+    import subprocess
+    for n in ((1, 99, 100, 101, 300) if quick else (1, 2, 50, 99, 100, 101, 102, 199, 200, 201, 300, 1000, 3000)):
+        p = subprocess.run([exe, "-roundtrip", str(n)], capture_output=True, text=True, timeout=600, env=vlib.GOENV)
+        out = p.stdout.strip().splitlines()
+        last = json.loads(out[-1]) if out else {}
+        chk.traces += 1
+        chk.stages.append({"stage": "store_roundtrip_%d" % n, "keys_checked": last.get("keys", 0), "status": last.get("status")})
+        if last.get("status") == "violation":
+            chk.violation("persisted records across a reopen: " + last.get("detail", ""), {"keys": n, "detail": last})
+        elif last.get("status") != "ok":
+            raise Inconclusive("store round trip failed to run: %s %s" % (p.stdout[-500:], p.stderr[-500:]))
     chk.assumptions += ["the layout function of Record.tla is the release layout stated in the property (transcription)",
                         "sequence values are rebuilt from base-256 digits by positional value, not by a byte-order routine"]
 
@@ -447,6 +478,16 @@ def programs_c07():
                         actors.append({"name": "W", "ops": [O("set", 0, "k1", tg.next())]})
                     progs.append({"name": "c07_%s_%s_%s_%s_%s%s" % (l1, l2, "".join(ws1), "".join(ws2), "early" if early else "late", "_w" if writer else ""),
                                   "family": "C07", "keys": ["k1", "k2"], "setup": setup, "actors": actors})
+    # a database that has never been written to: the first commits (and an autocommit write) meet on a main store
+    # nobody has used yet
+    for lvl in ("RR", "SER"):
+        for writer in (False, True):
+            tg = Tags()
+            setup = [O("begin", 1, l=lvl), O("set", 1, "k1", tg.next()), O("begin", 2, l=lvl), O("set", 2, "k1", tg.next())]
+            actors = [{"name": "A", "ops": [O("commit", 1)]}, {"name": "B", "ops": [O("commit", 2)]}]
+            if writer:
+                actors.append({"name": "W", "ops": [O("set", 0, "k1", tg.next())]})
+            progs.append({"name": "c07_fresh_%s%s" % (lvl, "_w" if writer else ""), "family": "C07", "keys": ["k1", "k2"], "setup": setup, "actors": actors})
     # three committers on one key
     tg = Tags()
     setup = [O("set", 0, "k1", tg.next())]
